@@ -325,18 +325,24 @@ type stmt struct {
 	NoBin   bool // not preparable: binary route skipped
 }
 
+// pickSize draws a result size: mostly the values around the 128-row batch and 512-row channel
+// boundaries, sometimes around 1 024, rarely an arbitrary one. The 5 000-row size is placed explicitly
+// (one sequential statement, one per small concurrent tier): it dominates the cost under -race.
 func pickSize(rnd interface{ Intn(int) int }) int {
-	if rnd.Intn(5) == 0 {
+	switch x := rnd.Intn(20); {
+	case x == 0:
 		return rnd.Intn(1400)
+	case x < 4:
+		return []int{1023, 1024, 1025}[rnd.Intn(3)]
 	}
-	if rnd.Intn(30) == 0 {
-		return 5000
-	}
-	return sizes[rnd.Intn(len(sizes)-1)]
+	return sizes[rnd.Intn(len(sizes)-4)] // 0 … 641
 }
 
 func genStmt(rnd interface{ Intn(int) int }, i int, sideK *int) stmt {
 	k := pickSize(rnd)
+	if i%97 == 7 {
+		return stmt{Kind: "sel-ordered", SQL: "SELECT id, payload, n, d FROM big WHERE id <= 5000 ORDER BY id", Ordered: true, Lo: 1, Hi: 5000}
+	}
 	switch x := rnd.Intn(40); {
 	case x < 6:
 		return stmt{Kind: "sel-ordered", SQL: fmt.Sprintf("SELECT id, payload, n, d FROM big WHERE id <= %d ORDER BY id", k), Ordered: true, Lo: 1, Hi: k}
@@ -721,7 +727,7 @@ func sequential(r *core.Run, engR *core.Eng, srvT, srvP *core.Srv) {
 		return
 	}
 	defer t.close()
-	n := r.N(150, 900)
+	n := r.N(130, 1200)
 	sideK := 0
 	r.Parallel("sequential", 1, func(int) {
 		for i := 0; i < n; i++ {
@@ -815,7 +821,7 @@ func runTriple(r *core.Run, t *triple, st stmt, i int) (connLost bool) {
 
 func concurrent(r *core.Run, srv *core.Srv, rep int) {
 	type tier struct{ clients, stmts int }
-	tiers := []tier{{1, r.N(8, 30)}, {8, r.N(25, 100)}, {32, r.N(4, 20)}}
+	tiers := []tier{{1, r.N(8, 40)}, {8, r.N(25, 150)}, {32, r.N(4, 30)}}
 	for ti, t := range tiers {
 		var wg sync.WaitGroup
 		var seq atomic.Int64
@@ -833,8 +839,8 @@ func concurrent(r *core.Run, srv *core.Srv, rep int) {
 				defer func() { conn.Close(); db.Close() }()
 				for i := 0; i < t.stmts; i++ {
 					k := pickSize(rnd)
-					if k == 5000 && (i > 0 || c >= 8) {
-						k = 513 // the 5 000-row size once per client of the small tiers
+					if i == 0 && c == 0 && t.clients <= 8 {
+						k = 5000 // the 5 000-row size once per small tier
 					}
 					lo := 1 + rnd.Intn(nBig-k)
 					hi := lo + k - 1
